@@ -159,6 +159,31 @@ def run(repo, rep, tier):
                     leaves = [x for b in iff.body for x in ast.walk(b) if isinstance(x, (ast.Break, ast.Return))]
                     if ordering and leaves:
                         early.append((iff, fn_.name, U(iff.test)))
+    # ... nor looks only at a window of positions chosen by the key (``entries[:key]``, ``entries[key - 1]``): where an entry
+    # sits says nothing about its key
+    from ..symexec import _unwrap_alias
+    windows = []
+    for mod_ in ("model.py", "containers.py"):
+        for fn_ in [n for n in ast.walk(repo.tree(mod_)) if isinstance(n, ast.FunctionDef)]:
+            for lp in [n for n in body_walk(fn_) if isinstance(n, ast.For)]:
+                it_ = lp.iter
+                for _ in range(3):
+                    if isinstance(it_, ast.Call) and call_name(it_) in ("reversed", "list", "tuple", "enumerate", "iter") and len(it_.args) == 1:
+                        it_ = it_.args[0]
+                    elif isinstance(it_, ast.Name):
+                        nxt_ = _unwrap_alias(fn_, it_)
+                        if nxt_ is it_:
+                            break
+                        it_ = nxt_
+                    else:
+                        break
+                keyed = any(isinstance(x, ast.Attribute) and x.attr in ("entries", "headers") for x in ast.walk(it_))
+                tests_key = any(isinstance(c, ast.Compare) and any(isinstance(x, ast.Attribute) and x.attr in ("key", "index") for x in ast.walk(c)) for c in ast.walk(lp))
+                if keyed and tests_key and isinstance(it_, ast.Subscript) and isinstance(it_.slice, ast.Slice):
+                    windows.append((lp, fn_.name, U(it_)))
+    rep.ob("C06.R1", windows[0][0] if windows else rt, "no search by key looks only at a window of positions", not windows,
+           "" if not windows else f"{windows[0][1]}: the search runs over `{windows[0][2][:60]}`: that assumes entry k sits among the first k positions; in another order the entry is not found",
+           key="C06.R1@scan-window")
     rep.ob("C06.R1", early[0][0] if early else rt, f"no scan of a keyed list stops on an ordering test of the keys ({n_scans} scans)", not early,
            "" if not early else f"{early[0][1]}: the scan stops when `{early[0][2]}`: that assumes the entries are stored in ascending key order; in another order the entry is not found "
            "(text, formats or sizes silently fall back to defaults)", key="C06.R1@scan-order")
@@ -271,6 +296,10 @@ def run(repo, rep, tier):
 
 
 VARIANTS = [
+    M("rich-text-search-in-key-prefix", "model.py", "        for entry in rich_text_table.entries:  # pragma: no branch  # noqa: RET503",
+      "        for entry in reversed(rich_text_table.entries[:string_key]):  # pragma: no branch  # noqa: RET503", "C06.R1"),
+    T("rich-text-search-reversed", "model.py", "        for entry in rich_text_table.entries:  # pragma: no branch  # noqa: RET503",
+      "        for entry in reversed(rich_text_table.entries):  # pragma: no branch  # noqa: RET503"),
     M("rich-text-scan-stops-at-larger-key", "model.py", "        for entry in rich_text_table.entries:  # pragma: no branch  # noqa: RET503\n            if string_key == entry.key:",
       "        for entry in rich_text_table.entries:  # pragma: no branch  # noqa: RET503\n            if entry.key > string_key:\n                break\n            if string_key == entry.key:", "C06.R1"),
     T("record-end-next-generator", "model.py", """            end = None
